@@ -218,6 +218,12 @@ func init() {
 						continue
 					}
 					points++
+					// no further crash points during the recovery phase
+					if s.crashPending {
+						s.crashPending = false
+						s.Crash()
+					}
+					s.crashAt = 0
 					s.mon.region("crash-" + side)
 					if crashes > 1 {
 						s.mon.region("double-crash")
